@@ -19,6 +19,12 @@ CHECKS = {
     text="MC_Bounds proves Within(Clamp(c)), idempotence and identity-on-in-bounds exhaustively on a lattice for every component kind and for the HWB coupling in exact rational arithmetic. Every real API result on lattices that put each component independently far below / just below / inside / just above / far above its range (19 colour types, f32 and f64, plain and Alpha, slices; 18 conversion pairs through the unclamped, clamping and checked APIs) is judged by TLC against the model, bit-exactly wherever the contract is a selection and with a one-rounding allowance where it divides or adds; the min/max accessors are compared with the documented table.",
     ref="DESIGN.md section 4 C03",
     note=TRUST + "; documented bounds table in spec/Types.tla (Lch::max_chroma documented as advisory, Okhsv's documented 1e-6 slack); Alpha<C,T>::is_within_bounds cannot be instantiated for float T on the pinned tree (its where-clause asks T: IsWithinBounds), so the Alpha within-flag is composed from the colour's flag and the alpha range"),
+ "C04": dict(
+    technique="TLA+ buffer model [form, unit, n, len, cap, data, addr] with one action per cast family and the call style as an argument (Cast.tla); TLC enumerates every chain of casts from every small buffer and checks conservation/identity/rejection invariants; each chain replayed on 97 real palette types built by field name; TLC trace validation of every call (TraceCast.tla) against the model and the specification's declared-field-order table; thorough: Miri as execution monitor on a sample",
+    category="model_checking",
+    text="Every chain of up to 2 (thorough: 3) casts - into/from array, component and uint; free functions, From*/Into*/Try* traits, borrowing As* traits, mirrored traits and the traits on &holder; by value, ref, mut, Box, [C;2], slice, mutable slice, boxed slice and Vec; map_vec_in_place / map_slice_box_in_place - from every buffer with n in 1..4, up to 8 components and Vec capacities up to 10 including non-multiples (8 313 / 82 911 / 760 617 chains) is executed on Luma, Lumaa, all 26 colour structs, Alpha, PreAlpha and Packed with u8/u16/u32/f32/f64 (u64/u128 for uint casts). After every call TLC requires the flat contents (bit-exact tokens written by field name, declared order, alpha last), length, observed capacity, address identity, size_of/align_of, error kind (length vs capacity vs panic) and the handed-back buffer to equal the model's next state.",
+    ref="DESIGN.md section 4 C04",
+    note=TRUST + "; Vec::capacity/as_ptr/size_of/align_of as observations; layout soundness is observed (values, addresses, sizes, alignments, std's debug precondition checks, Miri on sampled scenarios in the thorough tier), not proved - the specification does not model provenance; by-value component arrays only for 2n and 2n+1 elements; a cast that kills the process is located by rerunning with --crashlog and reported as a violation; Vec capacities are whatever the allocator gave"),
  "C07": dict(
     technique="invariant `every call on a colour of the statement's domain returns finite components and does not panic` judged by TLC trace validation (TraceFinite.tla decides domain membership from the documented bounds in Types.tla with exact arithmetic) over the boundary lattice x API surface",
     category="model_checking",
